@@ -436,6 +436,22 @@ func (z *zoneFlow) prepare() {
 			z.defs = append(z.defs, zdef{ax.r, ax.lenS.n, ax.lenS.off - 1, nil})
 		}
 	})
+	// single-byte / rune / set searches: -1 <= r < len(s)
+	eachInstr(z.fn, func(b *ssa.BasicBlock, in ssa.Instruction) {
+		c, ok := in.(*ssa.Call)
+		if !ok || !isCallTo(&c.Call, "strings.IndexByte", "strings.LastIndexByte", "strings.IndexRune", "strings.IndexAny", "strings.LastIndexAny",
+			"bytes.IndexByte", "bytes.LastIndexByte", "bytes.LastIndex", "bytes.IndexRune", "bytes.IndexAny", "bytes.LastIndexAny") {
+			return
+		}
+		rt, ls := z.term(c), z.lenTerm(c.Call.Args[0])
+		if !rt.ok {
+			return
+		}
+		z.defs = append(z.defs, zdef{0, rt.n, 1, nil})
+		if ls.ok {
+			z.defs = append(z.defs, zdef{rt.n, ls.n, ls.off - 1, nil})
+		}
+	})
 }
 
 func (z *zoneFlow) fresh() *dbm {
